@@ -16,7 +16,7 @@
 (* The module enumerates the scenarios (Spec) and provides the judging operators for Trace_StrokeCurves.     *)
 EXTENDS Lattice, TLC, Json, Randomization
 
-CONSTANTS Fam,     \* "cubic2" (two inflection points inside (0,1)) | "cubic" | "corner" | "arc"
+CONSTANTS Fam,     \* "cubic2" (two inflection points inside (0,1)) | "cubic" | "corner" | "arc" | "loop" | "rcorner"
           Num      \* size of the random subsets
 
 VARIABLES cv, done
@@ -49,15 +49,25 @@ ArcLarge(c) == c.n > 10
 \* largest parameter step between neighbouring integer points: 20.61 degrees; 1 - cos(10.31 deg) < 0.01615 ; * 250 < 4.04
 ArcGap == 5 * QA
 
+\* ---- rounded corner: line, quarter circle of radius 10 (through the integer points (6,2), (8,4) resp. their mirror images),
+\* line; stroked with half width 15 (> radius: the inner offset radius is negative), 10 (= radius) or 6
+RCornerPts(ccw) == LET y(v) == IF ccw THEN v ELSE 0 - v IN
+                   << <<-25, 0>>, <<0, 0>>, <<6, y(2)>>, <<8, y(4)>>, <<10, y(10)>>, <<10, y(40)>> >>
+\* sagitta of the longest chord (36.87 degrees on radius 10): 10 (1 - cos 18.435 deg) < 0.5132
+RCornerGap == 17
+
 \* ---- scenario -> way-point polyline, gap, radii (Q units) ------------------------------------------------------------------
 \* cv.type = "bez"   : pts                      one quadratic or cubic
 \*           "corner": pre, pts, post           (optional) straight segment from pre, the curve, (optional) straight segment to post
 \*           "arc"   : a, n, ccw, rot
+\*           "rcorner": ccw, hw                 line, quarter circle, line
+\* a "bez" with closed = TRUE is a one-segment loop (last control point = first) closed by z: the way-points are the same
 QOf(c) == IF c.type = "arc" THEN QA ELSE QB
 WPof(c) == CASE c.type = "bez" -> BezWP(c.pts)
              [] c.type = "corner" -> (IF c.pre # <<>> THEN <<LinePt(c.pre)>> ELSE <<>>) \o BezWP(c.pts) \o (IF c.post # <<>> THEN <<LinePt(c.post)>> ELSE <<>>)
              [] c.type = "arc" -> LET w == ArcWPu(c) IN [j \in 1..Len(w) |-> <<QA * w[j][1], QA * w[j][2]>>]
-GapOf(c) == IF c.type = "arc" THEN ArcGap ELSE BezGap(c.pts)
+             [] c.type = "rcorner" -> LET w == RCornerPts(c.ccw) IN [j \in 1..Len(w) |-> LinePt(w[j])]
+GapOf(c) == IF c.type = "arc" THEN ArcGap ELSE IF c.type = "rcorner" THEN RCornerGap ELSE BezGap(c.pts)
 Slack == 1
 \* Tol: 1/16 lattice unit for Beziers (half width 2), 1 unit for the ellipse (half width 20)
 TolOf(c) == IF c.type = "arc" THEN QA ELSE 2
@@ -102,6 +112,7 @@ TwoInfl(p) == Len(p) = 4 /\ LET k == InflA(p) a == k[1] b == k[2] c == k[3] IN
 \* the arc spans one step less or more than half of the ellipse (about 160..200 degrees, not exactly 180)
 NearHalfTurn(c) == c.n \in {9, 11}
 Features == CASE cv.type = "arc" -> [fold |-> FALSE, twoinfl |-> FALSE, nearhalf |-> NearHalfTurn(cv)]
+              [] cv.type = "rcorner" -> [fold |-> FALSE, twoinfl |-> FALSE, nearhalf |-> FALSE]
               [] OTHER -> [fold |-> Fold(cv.pts), twoinfl |-> TwoInfl(cv.pts), nearhalf |-> FALSE]
 
 \* ---- enumeration -------------------------------------------------------------------------------------------------------------
@@ -127,13 +138,22 @@ NoReversal(c) == /\ (c.post # <<>> => LET n == Len(c.pts) u == Leg(c.pts, n - 1)
                  /\ (c.pre # <<>> => LET u == <<c.pts[1][1] - c.pre[1], c.pts[1][2] - c.pre[2]>> v == Leg(c.pts, 1) IN
                                        ~(u[1] * v[2] - u[2] * v[1] = 0 /\ VDot(u, v) < 0))
 Arcs == {[type |-> "arc", a |-> a, n |-> n, ccw |-> w, rot |-> r] : a \in 0..19, n \in 1..19, w \in BOOLEAN, r \in BOOLEAN}
-Choice == CASE Fam = "cubic2" -> {Bez(p) : p \in Demo \cup {x \in RandomSubset(Num, [1..4 -> Grid]) : TwoInfl(x)}}
+\* one-segment loops with a corner at the closing point (teardrops), both orientations
+LoopCtl == {<<50,20>>, <<60,20>>, <<50,30>>, <<60,10>>}
+Mirror(p) == <<p[2], p[1]>>
+Loops == {[type |-> "bez", pts |-> << <<20,20>>, a, Mirror(b), <<20,20>> >>, closed |-> TRUE] : a \in LoopCtl, b \in LoopCtl}
+         \cup {[type |-> "bez", pts |-> << <<20,20>>, Mirror(b), a, <<20,20>> >>, closed |-> TRUE] : a \in LoopCtl, b \in LoopCtl}
+RCorners == {[type |-> "rcorner", ccw |-> w, hw |-> h] : w \in BOOLEAN, h \in {15, 10, 6}}
+Choice == CASE Fam = "loop" -> Loops
+            [] Fam = "rcorner" -> RCorners
+            [] Fam = "cubic2" -> {Bez(p) : p \in Demo \cup {x \in RandomSubset(Num, [1..4 -> Grid]) : TwoInfl(x)}}
             [] Fam = "cubic"  -> {Bez(p) : p \in {x \in RandomSubset(Num, [1..4 -> Grid]) \cup RandomSubset(Num \div 3, [1..3 -> Grid]) : NotAPoint(x) /\ ~Fold(x)}}
             [] Fam = "corner" -> {c \in Corners : NoReversal(c)}
             [] Fam = "arc"    -> RandomSubset(Num, Arcs)
 Init == cv \in Choice /\ done = FALSE
 ArcGeom(c) == LET w == ArcWPu(c) IN [s |-> w[1], e |-> w[Len(w)], rx |-> 250, ry |-> 125, rot |-> c.rot, large |-> ArcLarge(c), sweep |-> c.ccw]
-Scenario == IF cv.type = "arc" THEN [cv |-> cv, f |-> Features, g |-> ArcGeom(cv)] ELSE [cv |-> cv, f |-> Features]
+HwOf(c) == IF c.type = "arc" THEN 20 ELSE IF c.type = "rcorner" THEN c.hw ELSE 2
+Scenario == IF cv.type = "arc" THEN [cv |-> cv, f |-> Features, hw |-> HwOf(cv), g |-> ArcGeom(cv)] ELSE [cv |-> cv, f |-> Features, hw |-> HwOf(cv)]
 Emit == ~done /\ done' = TRUE /\ UNCHANGED cv /\ PrintT("@@" \o ToJson(Scenario))
 Spec == Init /\ [][Emit]_vars
 
@@ -147,6 +167,9 @@ Laws ==
                                             u == IF cv.rot THEN (3 * p[1] + 4 * p[2]) \div 5 ELSE p[1]
                                             v == IF cv.rot THEN (3 * p[2] - 4 * p[1]) \div 5 ELSE p[2] IN
                                         u * u + 4 * v * v = 4 * 125 * 125
+      [] cv.type = "rcorner" -> LET w == RCornerPts(cv.ccw) c == <<0, IF cv.ccw THEN 10 ELSE 0 - 10>> IN
+            /\ \A j \in 2..5 : Len2(c, w[j]) = 100                              \* the arc points lie on the circle around c
+            /\ RIn(cv, cv.hw) > 0
       [] OTHER -> LET p == cv.pts w == BezWP(p) IN
             /\ w[1] = LinePt(p[1]) /\ w[Len(w)] = LinePt(p[Len(p)])
             /\ RIn(cv, 2) > 0
